@@ -1,0 +1,107 @@
+//! Verification accessors of [`CharwiseDoubleArrayAhoCorasick`] (feature `daachorse_verif`).
+
+use alloc::vec::Vec;
+
+use crate::charwise::CharwiseDoubleArrayAhoCorasick;
+use crate::utils::FromU32;
+use crate::verif::{RawOutput, RawState, VerifOob};
+use crate::MatchKind;
+
+impl<V> CharwiseDoubleArrayAhoCorasick<V>
+where
+    V: Copy,
+{
+    /// Returns the match kind of this automaton.
+    #[must_use]
+    pub fn verif_match_kind(&self) -> MatchKind {
+        self.match_kind
+    }
+
+    /// Returns the lengths of the state table and of the output table.
+    #[must_use]
+    pub fn verif_lens(&self) -> (usize, usize) {
+        (self.states.len(), self.outputs.len())
+    }
+
+    /// Returns a copy of one element of the state table.
+    #[must_use]
+    pub fn verif_state(&self, idx: u32) -> Option<RawState> {
+        self.states.get(usize::from_u32(idx)).map(|s| RawState {
+            base: s.base().map_or(0, core::num::NonZeroU32::get),
+            check: s.check(),
+            fail: s.fail(),
+            output_pos: s.output_pos().map_or(0, core::num::NonZeroU32::get),
+        })
+    }
+
+    /// Returns a copy of the output table.
+    #[must_use]
+    pub fn verif_outputs(&self) -> Vec<RawOutput<V>> {
+        self.outputs
+            .iter()
+            .map(|o| RawOutput {
+                value: o.value(),
+                length: o.length(),
+                parent: o.parent().map_or(0, core::num::NonZeroU32::get),
+            })
+            .collect()
+    }
+
+    /// Returns the code mapper: for every code point below the table length the mapped code
+    /// (`u32::MAX` = unmapped), and the alphabet size.
+    #[must_use]
+    pub fn verif_mapper(&self) -> (Vec<u32>, u32) {
+        let (table, alphabet_size) = self.mapper.verif_raw();
+        (table.to_vec(), alphabet_size)
+    }
+
+    /// Evaluates the automaton's own code mapping for one character.
+    #[must_use]
+    pub fn verif_map(&self, c: char) -> Option<u32> {
+        self.mapper.get(c)
+    }
+
+    /// Evaluates the automaton's own child function after checking the indices it is going to
+    /// access. An access that would be out of bounds is returned as an error, not performed.
+    ///
+    /// # Errors
+    ///
+    /// [`VerifOob`] is returned when `state` or `base(state) ^ mapped_c` is not a valid index.
+    pub fn verif_child(&self, state: u32, mapped_c: u32) -> Result<Option<u32>, VerifOob> {
+        let len = self.states.len();
+        let oob = |index: u32| VerifOob {
+            state,
+            label: mapped_c,
+            index: u64::from(index),
+            len: len as u64,
+        };
+        let s = self
+            .states
+            .get(usize::from_u32(state))
+            .ok_or_else(|| oob(state))?;
+        if let Some(base) = s.base() {
+            let child_idx = base.get() ^ mapped_c;
+            if usize::from_u32(child_idx) >= len {
+                return Err(oob(child_idx));
+            }
+        }
+        Ok(unsafe { self.child_index_unchecked(state, mapped_c) })
+    }
+
+    /// Evaluates the automaton's own transition function (the one selected by the match kind),
+    /// including the code mapping of `c`.
+    ///
+    /// # Safety
+    ///
+    /// `state` must be a valid index, and every index the loop can reach from it must be valid
+    /// (the caller is expected to have validated this with [`Self::verif_child`] and
+    /// [`Self::verif_state`] beforehand).
+    #[must_use]
+    pub unsafe fn verif_next_state(&self, state: u32, c: char) -> u32 {
+        if self.match_kind == MatchKind::Standard {
+            self.next_state_id_unchecked(state, c)
+        } else {
+            self.next_state_id_leftmost_unchecked(state, c)
+        }
+    }
+}
